@@ -33,6 +33,8 @@ type Runner struct {
 
 // Run is the state of one execution.
 type Run struct {
+	Trace           []sim.CallRec
+	FirstNoPresence bool
 	H       *History
 	R       []*Replica
 	Out     *Outcome
@@ -203,6 +205,7 @@ func (rn *Runner) Start(ctx context.Context, h *History) (*Run, error) {
 	}
 	for i := 0; i < h.N; i++ {
 		c := rn.S.NewClient(p.PublicKey, fmt.Sprintf("c%d-%d", i, rn.seq))
+		c.Rec = func(cr sim.CallRec) { r.Trace = append(r.Trace, cr) }
 		if err := c.Activate(ctx); err != nil {
 			return nil, fmt.Errorf("activate: %w", err)
 		}
@@ -251,6 +254,9 @@ func (r *Run) exec(ctx context.Context, idx int, st *Step) StepObs {
 		}
 		if rp.A != nil {
 			rp.A.Close()
+		}
+		if len(r.Trace) == r.H.N {
+			r.FirstNoPresence = st.NoPresence
 		}
 		a, e := rp.C.Attach(ctx, r.DocKey, sim.AttachOpts{DisableGC: st.OptOut || r.H.AllOptOut, DisablePresence: st.NoPresence, Presence: st.Pres})
 		rp.A = a
@@ -374,9 +380,15 @@ func trunc(s string, n int) string {
 
 // Run executes the whole history, then quiesces and collects the final state.
 func (rn *Runner) Run(ctx context.Context, h *History) *Outcome {
+	_, o := rn.RunFull(ctx, h)
+	return o
+}
+
+// RunFull is Run that also returns the run state (trace, project, ...).
+func (rn *Runner) RunFull(ctx context.Context, h *History) (*Run, *Outcome) {
 	r, err := rn.Start(ctx, h)
 	if err != nil {
-		return &Outcome{Fatal: "start: " + err.Error()}
+		return nil, &Outcome{Fatal: "start: " + err.Error()}
 	}
 	defer r.Close()
 	// setup: client 0 attaches and creates the containers, everybody attaches and syncs
@@ -391,7 +403,7 @@ func (rn *Runner) Run(ctx context.Context, h *History) *Outcome {
 					setupEdits(root, h.Setup)
 					return nil
 				}); err != nil {
-					return &Outcome{Fatal: "setup update: " + err.Error()}
+					return r, &Outcome{Fatal: "setup update: " + err.Error()}
 				}
 				if o := r.Exec(ctx, -1, &Step{Op: "S", C: 0}); o.Err != "" {
 					r.problem("setup-sync-error", -1, "%s", o.Err)
@@ -408,7 +420,7 @@ func (rn *Runner) Run(ctx context.Context, h *History) *Outcome {
 		}
 	}
 	r.Finish(ctx)
-	return r.Out
+	return r, r.Out
 }
 
 // Finish applies pending responses, runs the final sync rounds and collects the final state.
